@@ -33,6 +33,8 @@ type modelRes struct {
 	term, ebe, lassocut, pathcut bool
 	visited                      int
 	flows                        []int
+	idealTerm                    bool
+	ideal                        []int
 }
 
 func parseRes(line string) (id int, m modelRes, ok bool) {
@@ -61,14 +63,20 @@ func parseRes(line string) (id int, m modelRes, ok bool) {
 			if p[1] != "0" {
 				return
 			}
-		case "flows":
+		case "flows", "ideal":
 			if p[1] != "-" {
 				for _, x := range strings.Split(p[1], ",") {
 					var n int
 					fmt.Sscan(x, &n)
-					m.flows = append(m.flows, n)
+					if p[0] == "flows" {
+						m.flows = append(m.flows, n)
+					} else {
+						m.ideal = append(m.ideal, n)
+					}
 				}
 			}
+		case "idealterm":
+			m.idealTerm = p[1] == "1"
 		}
 	}
 	return id, m, true
@@ -166,13 +174,14 @@ type corpusCase struct {
 }
 
 var corpus = []corpusCase{
-	{"F1", "F01_lasso_rotation", [][2]int{{21, 12}}, "lasso", false},
-	{"F14", "F14_param_entered_from_inside", [][2]int{{22, 16}}, "ebe", false},
+	{"F1", "F01_lasso_rotation", [][2]int{{20, 12}}, "lasso", false},
+	{"F14", "F14_param_entered_from_inside", [][2]int{{21, 16}}, "ebe", false},
 	{"F3", "F02_F03_builtins", [][2]int{{15, 17}}, "", false},
 	{"F2", "F02_F03_builtins", [][2]int{{18, 19}}, "", false},
 	{"C01a", "C01a_closure_two_bound_vars", [][2]int{{16, 20}, {16, 21}}, "ebe", false},
 	{"C01b", "C01b_fs_access_path_cut", [][2]int{{22, 25}}, "path", true},
-	{"C01c", "C01c_fs_nontermination", [][2]int{{24, 29}}, "hang", true},
+	{"C01c", "C01c_fs_nontermination", [][2]int{{23, 28}}, "hang", true},
+	{"C01d", "C01d_nested_closure_seen_key", [][2]int{{22, 38}}, "ebe", false},
 }
 
 func runCorpus(rep *lib.Report) {
@@ -183,6 +192,12 @@ func runCorpus(rep *lib.Report) {
 		if err != nil {
 			rep.Fail("corpus-missing:"+c.dir, "corpus input missing: "+err.Error(), nil, true)
 			continue
+		}
+		lines := strings.Split(string(src), "\n")
+		for _, p := range c.pairs {
+			if p[0] > len(lines) || p[1] > len(lines) || !strings.Contains(lines[p[0]-1], "source(") || !strings.Contains(lines[p[1]-1], "sink(") {
+				rep.Fail("corpus-lines:"+c.id, fmt.Sprintf("corpus table of the driver does not match %s/main.go (lines %d, %d)", c.dir, p[0], p[1]), src, true)
+			}
 		}
 		l := loaded[c.dir]
 		if l == nil {
@@ -294,7 +309,7 @@ func main() {
 			rep.Count(fmt.Sprintf("positive=%v,observed=%v", c.Positive, gt[mugo.Pair{Source: c.ID, Sink: c.ID}]))
 		}
 		// hypotheses of the model run per (field-sensitive, case id): LassoFree, EntryBeforeExit, no access-path cut
-		type hyps struct{ lassoFree, ebe, noPathCut, known bool }
+		type hyps struct{ lassoFree, ebe, noPathCut, known, idealFindsSink bool }
 		hyp := map[bool]map[int]hyps{false: {}, true: {}}
 		var pairs []mugo.Pair
 		for pr := range gt {
@@ -357,7 +372,13 @@ func main() {
 							}
 							h, seen := hyp[cfg.FieldSensitive][id]
 							if !seen {
-								h = hyps{true, true, true, true}
+								h = hyps{true, true, true, true, false}
+							}
+							for _, sn := range ms[i].ideal {
+								if ci, ok := df.Instr(d.Nodes[sn]).(ssa.CallInstruction); ok && ci.Common().StaticCallee() != nil &&
+									ci.Common().StaticCallee().Name() == fmt.Sprintf("sink_%d", id) {
+									h.idealFindsSink = true
+								}
 							}
 							h.lassoFree = h.lassoFree && !ms[i].lassocut
 							h.ebe = h.ebe && ms[i].ebe
@@ -391,7 +412,12 @@ func main() {
 					content := fmt.Sprintf("// configuration %s\n// %s\n// ground truth: native run observes marker of source_%d at sink_%d; the analysis reports no such flow\n// config file:\n%s\n%s\n%s",
 						cfg.Name(), where, pr.Source, pr.Sink, commentOut(taintrun.ConfigYAML(cfg)), mugoPrelude, c.Src)
 					key := "miss:" + cfg.Name() + ":" + caseKey(c)
-					if cfg.FieldSensitive && h.known && !h.noPathCut {
+					if h.known && !h.ebe && h.idealFindsSink {
+						// the traversal with the full seen key (theorem ideal_complete) reports this sink on the
+						// same dumped graph, the real key loses it: findings F14 / C01a, keyed by that shape
+						key = "miss:seen-key-ignores-entry"
+						rep.Count("known-shape:seen-key-ignores-entry")
+					} else if cfg.FieldSensitive && h.known && !h.noPathCut {
 						// one defect, many inputs: keyed by the shape the model exhibits (finding C01b)
 						key = "miss:field-sensitive:access-path-cut"
 						rep.Count("known-shape:field-sensitive-access-path-cut")
